@@ -119,8 +119,6 @@ class D:
                 f = (lambda k, c: unwrap(d)._sample(k, c)) if self.cshape is not None else (lambda k, c: unwrap(d)._sample(k))
             elif which == "_sample_and_log_prob":
                 f = (lambda k, c: unwrap(d)._sample_and_log_prob(k, c)) if self.cshape is not None else (lambda k, c: unwrap(d)._sample_and_log_prob(k))
-            elif which == "sample":  # public, unbatched: sample_shape=(), unbatched condition
-                f = (lambda k, c: d.sample(k, (), c)) if self.cshape is not None else (lambda k, c: d.sample(k))
             else:
                 raise KeyError(which)
             self._fns[which] = eqx.filter_jit(f)
@@ -373,11 +371,6 @@ def check_plan(d, case, plan, status, outs, x, c, key, memo, stats):
                 dis.append(f"sample_and_log_prob(key, {tuple(case['ss'])}, c)[{I}] = ({s[I]!r}, {outs[1][I]!r}) but "
                            f"_sample_and_log_prob(split(key,{plan['n']})[{k}], c[{Ic}]) = ({rs!r}, {rl!r})")
                 break
-    if not dis and not plan["out"] and m == "sample":
-        # no batch dims: the plan is the single unbatched call; also through the public unbatched entry point
-        ref = memo("sample", key, c if cond else None)
-        if not close(s, ref):
-            dis.append("unbatched public sample differs from itself under jit")
     return dis
 
 
@@ -514,7 +507,7 @@ def gen_cases(ctx, zoo, zoo_seed, boost=1):
         # ---------------- log_prob: pairs of batch shapes
         if quick:
             pairs = [((), ())]
-            for _ in range((2 if cond else 3) + 3 * (boost - 1)):
+            for _ in range((1 if cond else 3) + 3 * (boost - 1)):
                 r = int(rng.integers(1, 4))
                 out = tuple(int(v) for v in rng.choice([2, 3], size=r))
                 if int(np.prod(out)) > 18:
